@@ -5,7 +5,7 @@ C18 (every HTTP request gets one well-formed, correctly classified response).
 
 Both build the ASan+UBSan server from /repo's current tree through harness/build.py, never touch /repo, keep every
 scratch file under /verif/work/http-<pid>/ and kill the processes they started by PID (try/finally + kill_all)."""
-import collections, json, os, random, re, shutil, sys, time
+import collections, json, os, random, re, shutil, subprocess, sys, time
 from concurrent.futures import ThreadPoolExecutor
 from . import core, engine, gen, canon, httpkit as H, oracles as O
 from . import loader_corr
@@ -53,6 +53,9 @@ def c16_plan(seed, k):
     rng = random.Random(seed * 1000003 + k)
     stream = _pick(rng, C16_STREAMS)
     d = gen.gen_dataset(rng, stream)
+    if rng.random() < 0.35:
+        # zero-length segments (two stops at one place): a loader that mistakes 0 for "no value" shifts every later distance
+        d["paths"] = [(l, st, [0 if (di and rng.random() < 0.4) else x for x in di]) for l, st, di in d["paths"]]
     # the OSRM client enumerates candidate stops in uuid (= index) order; give the in-process table the same order so
     # that a tie between two access / egress stops is not broken differently on the two sides
     d["acc"] = sorted(d["acc"]); d["egr"] = sorted(d["egr"])
@@ -661,6 +664,63 @@ def enc_value(rng, v, p=0.15):
     return "".join(out)
 
 
+def _hex(s):
+    return s.encode("latin-1", "replace").hex() or "00"[:0]
+
+
+def c18_model_compare(rep, model_exe, items, stats, wd):
+    """items: (group, url, endpoint, data status the handler consults, known ids, empty ids, record).  Runs the Lean parameter model
+    (`trmodel --classify`, Model/Params.lean) on every request whose outcome does not depend on the unknown iteration order of the
+    server's hash multimap (no duplicated key; scenario ids spelt canonically) and compares (HTTP status, status, errorCode, echoed time)."""
+    if not model_exe or not items: return
+    lines, meta = [], []
+    cur_env = None
+    for g, url, ep, status, known, empty, rec in items:
+        qs = url.split("?", 1)[1] if "?" in url else ""
+        pairs = server_parse_query(qs)
+        keys = [k for k, v in pairs]
+        if len(set(k.lower() for k in keys)) != len(keys):
+            stats["model: skipped (duplicated key)"] += 1; continue
+        if any(k == "scenario_id" and scen_model(v, known, empty) == "lenient" for k, v in pairs):
+            stats["model: skipped (lenient uuid spelling)"] += 1; continue
+        if any(ord(c) < 0x20 or ord(c) > 0x7e for k, v in pairs for c in k):
+            stats["model: skipped (odd key bytes)"] += 1; continue
+        env = (tuple(sorted(known)), tuple(sorted(empty)))
+        if env != cur_env:
+            lines.append("env %s ; %s" % (" ".join(_hex(x) for x in env[0]), " ".join(_hex(x) for x in env[1]))); cur_env = env
+        for order in (pairs, pairs[::-1]):
+            lines.append("req %s %s %s" % (ep, status, " ".join("%s=%s" % (_hex(k), _hex(v)) for k, v in order)))
+        meta.append((g, url, ep, status, rec))
+    path = os.path.join(wd, "classify.txt")
+    open(path, "w").write("\n".join(lines) + "\n")
+    r = subprocess.run([model_exe, "--classify", path], capture_output=True, text=True, timeout=600)
+    out = r.stdout.splitlines()
+    if r.returncode != 0 or len(out) != 2 * len(meta):
+        rep.corr.append(("params-model-driver", "trmodel --classify rc=%d, %d lines for %d requests: %s" % (r.returncode, len(out), 2 * len(meta), r.stderr[-200:]), "")); return
+    for i, (g, url, ep, status, rec) in enumerate(meta):
+        preds = set(out[2 * i:2 * i + 2])
+        if "?" in preds:
+            stats["model: undecided coordinate"] += 1; continue
+        try: j = json.loads(rec["body"].decode("utf-8", "replace"))
+        except Exception: j = None
+        if not isinstance(j, dict):
+            continue            # malformed bodies are the direct evaluation's business
+        if rec["st"] == 400: got = "400 %s" % j.get("errorCode")
+        elif j.get("status") == "data_error": got = "dataerror %s" % j.get("errorCode")
+        else:
+            q = j.get("query") or {}
+            got = "200 time=%s tt=%s" % (q.get("timeOfTrip"), q.get("timeType"))
+        cmp_preds = set(re.sub(r" alt=\d$", "", p) for p in preds)
+        stats["model: compared"] += 1
+        stats["model says " + sorted(cmp_preds)[0].split(" time=")[0]] += 1
+        if got not in cmp_preds:
+            stats["model: DISAGREES"] += 1
+            rep.corr.append(("params-model(C18)", "the Lean parameter model classifies GET %s on %s data as %s, the server answered %s" % (
+                _short(url), status, sorted(cmp_preds), got), replay_text_c18(g, [url], "params-model")))
+    rep.obligation("correspondence:params-model(C18)", not any(c[0].startswith("params-model") for c in rep.corr),
+                   "%d request(s) compared" % stats["model: compared"])
+
+
 class Ctx:
     """what a request generator needs to know about one ready dataset"""
     def __init__(self, d, label):
@@ -902,7 +962,8 @@ def run_c18(tier, seed, replay=None, theorems=None, module=None):
         rep.direct.append((sig, desc, replay_text_c18(group, urls, sig)))
 
     try:
-        core.lean_phase(rep, module if ths else None, ths, thorough=(tier == "thorough"))
+        model_exe = core.lean_phase(rep, module if ths else None, ths, thorough=(tier == "thorough"))
+        model_items = []
         server = core.harness_phase(rep, "server", "asan")
         cachegen = core.harness_phase(rep, "cachegen", "plain")
         try:
@@ -1010,6 +1071,9 @@ def run_c18(tier, seed, replay=None, theorems=None, module=None):
                 else:
                     fails, j, info = classify_route_response(ep, url, rec["st"], rec["hd"], rec["body"], ready_now, set(ctx.known), set(ctx.empty), codes)
                     feats = info["features"]
+                    dstatus = "READY" if (ready_now and g is not gflip) else ("NO_AGENCIES" if g is gempty else "NO_SCHEDULES" if g is gnos else None)
+                    if dstatus and ep in ("route", "summary", "accessibility"):
+                        model_items.append((g, url, ep, dstatus, set(ctx.known), set(ctx.empty), rec))
                     stats["%s %s %s" % (ep, rec["st"], (j.get("errorCode") or j.get("status")) if j else "unparsable")] += 1
                 for sig, desc in fails:
                     if g is gflip:
@@ -1027,6 +1091,7 @@ def run_c18(tier, seed, replay=None, theorems=None, module=None):
             if g.final_san:
                 fail("sanitizer", "sanitizer / abort output of server %s not attributed to a request: %s" % (g.name, g.final_san[:500]), g, [r["url"] for r in g.records[-3:] if "url" in r], key=g.name)
             stats["server restarts"] += g.restarts
+        c18_model_compare(rep, model_exe, model_items, stats, wd)
         for sig, desc, urls in pair_fails:
             fail(sig, desc, gpair, urls)
         if gpair.final_san:
